@@ -16,7 +16,24 @@ def surface(root="/repo/src"):
             src = src.split("#[cfg(test)]")[0]
             impl = ""
             trait_impl = ""
+            # join multi-line impl headers ("impl<...> Trait<..>\n    for Type<..>\nwhere ...{") into one line
+            lines = []
+            pending = None
             for line in src.split("\n"):
+                st = line.strip()
+                if st.startswith("//"):
+                    continue
+                if pending is not None:
+                    pending += " " + st
+                    if "{" in st or st.endswith(";"):
+                        lines.append(pending)
+                        pending = None
+                    continue
+                if re.match(r"(unsafe\s+)?impl\b", st) and "{" not in st:
+                    pending = st
+                    continue
+                lines.append(line)
+            for line in lines:
                 s = line.strip()
                 if s.startswith("//"):
                     continue
@@ -30,10 +47,13 @@ def surface(root="/repo/src"):
                 m = re.match(r"pub\s+(?:const\s+)?(?:unsafe\s+)?fn\s+(\w+)", s)
                 if m:
                     out.append(f"{rel}:{impl}::{m.group(1)}")
-                m = re.match(r"(?:unsafe\s+)?impl\b.*\b(\w+(?:<[^>]*>)?)\s+for\s+(\S+)", s)
+                hs = re.sub(r"<[^<>]*>", "", s)
+                hs = re.sub(r"<[^<>]*>", "", hs)
+                hs = re.sub(r"<[^<>]*>", "", hs)
+                m = re.match(r"(?:unsafe\s+)?impl\b\s*(\S+)\s+for\s+(\S+)", hs)
                 if m and not s.startswith("pub"):
-                    t = re.sub(r"<.*", "", m.group(1))
-                    for_ = re.sub(r"<.*", "", m.group(2))
+                    t = m.group(1).split("::")[-1]
+                    for_ = m.group(2).replace("{", "").split("::")[-1]
                     trait_impl = f"impl {t} for {for_}"
                     out.append(f"{rel}:{trait_impl}")
                 elif re.match(r"(?:unsafe\s+)?impl\b", s):
